@@ -55,7 +55,7 @@ def run_shard(spec, acc):
     if spec['tier'] == 'quick':
         n_hist, jobs, cap = 9, 12, 600
     else:
-        n_hist, jobs, cap = 60, 20, 4200
+        n_hist, jobs, cap = 110, 22, 4800
     runner.run_histories(spec, acc, configs(), prof, MONITORS, n_hist, jobs,
                          openers=openers, soft_cap_s=cap)
 
